@@ -141,6 +141,35 @@ def view_records(out, quick):
                            "ref": q([ref(mode, l) for l in st], S), "ptol": 64})
 
 
+def view_all_cases(out):
+    """all three load cases evaluated in ONE view of a material WITH state variables (pseudo-elastic softening on a monotone path =
+    primary loading = the base material): every load case starts from the virgin state"""
+    from scipy.optimize import brentq
+    rid = "view-ogdenroxburgh-all-cases"
+    if not out.want(rid):
+        return
+    umat = fem.OgdenRoxburgh(fem.NeoHooke(mu=1.25, bulk=2.0), r=3.0, m=0.75, beta=0.125)
+    st = fem.math.linsteps([1.0, 1.75], num=6)
+    import warnings as w
+    with w.catch_warnings():
+        w.simplefilter("ignore")
+        data = umat.view(incompressible=False, ux=st, ps=st, bx=st).evaluate()
+    P = lambda l1, l2, l3: analytic_P("neohooke-soft", [l1, l2, l3])  # noqa: E731
+    root = lambda g: brentq(g, 1e-2, 1e2, xtol=1e-14, rtol=1e-14)  # noqa: E731
+    refs = []
+    for l in st:
+        x = root(lambda x: P(l, x, x)[1])
+        refs.append(P(l, x, x)[0])
+    for l in st:
+        x = root(lambda x: P(l, 1.0, x)[2])
+        refs.append(P(l, 1.0, x)[0])
+    for l in st:
+        x = root(lambda x: P(l, l, x)[2])
+        refs.append(P(l, l, x)[0])
+    got = np.concatenate([np.asarray(d[1], float) for d in data[:3]])
+    out.write({"id": rid, "kind": "view", "nt": True, "view": q(got, S), "ref": q(refs, S), "ptol": 64})
+
+
 def curve(out, rid, kind, fam, mat, rng, nsub, axes=(0, 1), axis=0):
     dim, conv, Reg = FAMILIES[fam]
     a_, b_ = ((0, 0, 0), (2, 1, 1)) if dim == 3 else ((0, 0), (2, 1))
@@ -226,6 +255,7 @@ def main():
     if out.want(rid):
         curve(out, rid, "uniaxial", "quad4", "neohooke", np.random.RandomState(rng.randint(0, 2 ** 31 - 1)), 3, axis=1)
     view_records(out, quick)
+    view_all_cases(out)
     # ramp subdivisions {1, 2, 3, 5}: same final state
     rid = "ramp-hex8-neohooke"
     if out.want(rid):
